@@ -1,7 +1,7 @@
 LIBS = ["libvpsc", "libcola"]
 HARNESS = "harness/c08.cpp"
 DRIVER_MODE = "c08"
-LEAN_MODULES = ["AdaptaVerif.Props.C08"]
+LEAN_MODULES = ["AdaptaVerif.Props.C08", "AdaptaVerif.Props.C08Tie"]
 LEVEL = "translation_validation"
 LEVEL_TEXT = ("Proof component: a satisfied separation with gap = sum of half sizes leaves no overlap in that dimension "
               "(hence no 2-D overlap); the decision rule of NonOverlapConstraints::generateSeparationConstraints (model "
@@ -27,6 +27,15 @@ TRUSTED_BASE = ["Lean 4.33 kernel", "axioms: propext, Classical.choice, Quot.sou
 ASSUMPTIONS = ["a double printed with %a is imported exactly", "generated inputs are dyadic so half sizes, centres and cluster bounds are exact",
                "unsatisfiable lists registered through setUnsatisfiableConstraintInfo are the only reporting channel"]
 EXPLANATION = "see LEVEL_TEXT / LEVEL_NOTE"
+
+
+def regenerate(ROOT, REPO):
+    """Rectangle::overlapX/overlapY and the centres are regenerated from libvpsc/rectangle.h by cpp2lean on every run and proved equal to the overlap function of Model/Compound.lean (Props/C08Tie.lean)"""
+    import sys
+    from pathlib import Path
+    sys.path.insert(0, str(Path(ROOT) / "tools" / "cpp2lean"))
+    import jobs
+    return jobs.regenerate(["rect"], Path(ROOT), Path(REPO))
 
 
 def plan(tier, seed, searching):
